@@ -511,6 +511,14 @@ func (m *Model) calleeName(call *ast.CallExpr) string {
 		if u := m.ByObj[f]; u != nil {
 			return u.Name
 		}
+		if f.Pkg() == m.Pkg {
+			if sig, ok := f.Type().(*types.Signature); ok && sig.Recv() != nil {
+				if n := namedOf(sig.Recv().Type()); n != nil {
+					return n.Obj().Name() + "." + f.Name()
+				}
+			}
+			return f.Name()
+		}
 		if f.Pkg() != nil {
 			if sig, ok := f.Type().(*types.Signature); ok && sig.Recv() != nil {
 				if n := namedOf(sig.Recv().Type()); n != nil {
